@@ -14,9 +14,17 @@ mod verif_c14 {
     fn stub_powf(x: f32, _y: f32) -> f32 { x }
     fn stub_expf(x: f32) -> f32 { x }
     fn stub_cbrtf(x: f32) -> f32 { x }
+    /// unpadded stand-in for Plane::new (allocation of 64-byte aligned rows dominates otherwise; layout is C11's subject)
+    fn stub_plane_new<T: Pixel>(width: usize, height: usize, xdec: usize, ydec: usize, _xpad: usize, _ypad: usize) -> Plane<T> {
+        let buf = vec![T::cast_from(128u8); width * height];
+        let mut p = Plane::from_slice(&buf, width);
+        p.cfg.xdec = xdec; p.cfg.ydec = ydec;
+        p
+    }
 
     fn any_meta(p: u8) -> (MC, CP, TC, u8, u8, u8) {
-        let m: u8 = kani::any(); let t: u8 = kani::any();
+        let in_m: u8 = kani::any(); let in_t: u8 = kani::any();
+        let (m, t) = (in_m, in_t);
         kani::assume(m < 15 && t < 19);
         let (mc, cp, tc) = (MC_ALL[m as usize], CP_ALL[p as usize], TC_ALL[t as usize]);
         kani::assume(mc != MC::Unspecified && cp != CP::Unspecified && tc != TC::Unspecified);
@@ -50,7 +58,9 @@ mod verif_c14 {
 BODY = r'''
     // ---- YUV <-> RGB (single stage: matrix only)
     #[kani::proof]
-    #[kani::unwind(66)]
+    #[kani::unwind(6)]
+    #[kani::stub(v_frame::plane::Plane::new, stub_plane_new)]
+    #[kani::stub(yuvxyb_math::matrix::Matrix::mul_arr, yuvxyb_math::matrix::verif_stub_mul_arr)]
     fn k_c14_yuv_rgb_p@P@() {
         let in_p: u8 = @P@; let (mc, cp, tc, in_m, _, in_t) = any_meta(in_p);
         let in_y: u8 = kani::any(); let in_u: u8 = kani::any(); let in_v: u8 = kani::any();
@@ -70,7 +80,9 @@ BODY = r'''
 
     // ---- with a standard matrix YUV<->RGB ignores transfer and primaries
     #[kani::proof]
-    #[kani::unwind(66)]
+    #[kani::unwind(6)]
+    #[kani::stub(v_frame::plane::Plane::new, stub_plane_new)]
+    #[kani::stub(yuvxyb_math::matrix::Matrix::mul_arr, yuvxyb_math::matrix::verif_stub_mul_arr)]
     fn k_c14_yuv_rgb_ignores_tc_cp_p@P@() {
         let in_p: u8 = @P@; let (mc, cp, tc, in_m, _, in_t) = any_meta(in_p);
         let in_p2: u8 = @P2@; let (_, cp2, tc2, _, _, in_t2) = any_meta(in_p2);
@@ -128,10 +140,12 @@ BODY = r'''
 
     // ---- multi-stage: YUV <-> linear RGB and YUV <-> XYB
     #[kani::proof]
-    #[kani::unwind(66)]
+    #[kani::unwind(6)]
     #[kani::stub(yuvxyb_math::pow_exp::powf, stub_powf)]
     #[kani::stub(yuvxyb_math::pow_exp::expf, stub_expf)]
     #[kani::stub(yuvxyb_math::cbrtf::cbrtf, stub_cbrtf)]
+    #[kani::stub(v_frame::plane::Plane::new, stub_plane_new)]
+    #[kani::stub(yuvxyb_math::matrix::Matrix::mul_arr, yuvxyb_math::matrix::verif_stub_mul_arr)]
     fn k_c14_yuv_linear_xyb_p@P@() {
         let in_p: u8 = @P@; let (mc, cp, tc, in_m, _, in_t) = any_meta(in_p);
         let c = cfg(mc, cp, tc);
@@ -157,6 +171,8 @@ BODY = r'''
 
 def replay(ctx, spec, f):
     ins = {k: int(v["bin"], 2) for k, v in (f.get("inputs") or {}).items()}
+    if "_p" in spec["name"] and spec["name"].rsplit("_p", 1)[1].isdigit():
+        ins["in_p"] = int(spec["name"].rsplit("_p", 1)[1])
     if any(k not in ins for k in ("in_m", "in_p", "in_t")):
         return {"reproduced": None, "detail": "metadata indices not found in trace"}
     args = [spec["what"], ins["in_m"], ins["in_p"], ins["in_t"], ins.get("in_p2", ins["in_p"]), ins.get("in_t2", ins["in_t"])]
@@ -166,6 +182,10 @@ def replay(ctx, spec, f):
 def plan(tier, seed):
     p = Plan()
     p.stubbing = True
+    import os
+    here = os.path.dirname(__file__)
+    p.modules.append(("yuvxyb-math/src/matrix.rs", open(os.path.join(here, "..", "harness", "math_stub.rs")).read()))
+    p.modules.append(("yuvxyb-math/src/lib.rs", open(os.path.join(here, "..", "harness", "math_stub_lib.rs")).read()))
     thorough = tier == "thorough"
     cps = [0, 1, 3, 4, 5, 6, 7, 8, 9, 10, 11, 12, 13]           # every ColorPrimaries value except Unspecified
     txt = MOD
@@ -197,7 +217,7 @@ def plan(tier, seed):
     p.functions = ["get_rgb_to_yuv_matrix / get_yuv_to_rgb_matrix / ncl_rgb_to_yuv_matrix* / get_yuv_constants* / get_primaries_xy (src/yuv_rgb/color.rs)",
                    "TransferFunction::to_linear / to_gamma dispatch (src/yuv_rgb/transfer.rs)", "transform_primaries, gamut_*_matrix, white_point_adaptation_matrix",
                    "all TryFrom impls between Yuv, Rgb, LinearRgb, Xyb (src/rgb.rs, linear_rgb.rs, xyb.rs, yuv.rs)"]
-    p.bounds = ["all 3276 fully specified triples (symbolic), 1x1 images, 8-bit limited 4:4:4; loops unwound to 66 (64-sample aligned plane rows) with unwinding assertions"]
+    p.bounds = ["all 3276 fully specified triples (symbolic), 1x1 images, 8-bit limited 4:4:4; Plane::new and Matrix::mul_arr replaced by pure stand-ins (only success/failure, errors and data-independence are observed)"]
     p.outside = ["Unspecified values (C15)", "bit depths / ranges other than 8-bit limited for this contract (the dispatch does not depend on them)"]
     p.assumptions = ["powf/expf/cbrtf replaced by pure stand-ins in the Ok/Err harnesses (-Z stubbing): only success/failure and error values are observed there",
                      "ln/log10 are over-approximated by Kani (any result): irrelevant for Ok/Err"]
